@@ -356,7 +356,7 @@ func inBubble(t *testing.T, f func()) (panicked any) {
 
 func TestC08(t *testing.T) {
 	r := ev.Start("C08", "exploration")
-	r.Rule("(1) controlled scheduler: 2-3 goroutines with short programs (decrypt / encrypt / decrypt an old-generation record / close another session / refresh on every access) park at the verif hook points where no SDK lock is held (entering and leaving the read-locked lookup of GetOrLoad, entering GetOrLoadLatest, holding a tracked key) and a controller woken by synctest.Wait releases exactly one per step; ALL interleavings are enumerated depth-first with replay for shared IK caches of capacity 1-2 under lru/lfu/slru/tinylfu, an SK cache of capacity 1 with two SK generations and per-session caches. (2) seeded stress with real goroutines under the Go race detector: 16-32 goroutines over 8-150 partitions on capacity-1/2 (synchronous) and capacity-100 (asynchronous eviction) caches with seeded yields at the same hook points. Oracle: every operation that does not race with the close of its own session succeeds with the right bytes, the ledger sees no access to a destroyed secret, no race report has an asherah frame. Distinct+non-trivial: distinct hook-order traces in which a key was evicted while a caller held or was about to take a reference.")
+	r.Rule("(1) controlled scheduler: 2-3 goroutines with short programs (decrypt / encrypt / decrypt an old-generation record / close another session / refresh on every access) park at the verif hook points where no SDK lock is held (entering and leaving the read-locked lookup of GetOrLoad, entering GetOrLoadLatest, holding a tracked key) and a controller woken by synctest.Wait releases exactly one per step; ALL interleavings are enumerated depth-first with replay for shared IK caches of capacity 1-2 under lru/lfu/slru/tinylfu, an SK cache of capacity 1 with two SK generations and per-session caches. (2) seeded stress with real goroutines under the Go race detector: 16-32 goroutines over 8-150 partitions on capacity-1/2 (synchronous) and capacity-100 (asynchronous eviction) caches with seeded yields at the same hook points. (3) the same kind of load against a factory built from the SDK's own parts with every harness monitor removed, so that the race detector sees the SDK's synchronisation only. Oracle: every operation that does not race with the close of its own session succeeds with the right bytes, the ledger sees no access to a destroyed secret, no race report has an asherah frame. Distinct+non-trivial: distinct hook-order traces in which a key was evicted while a caller held or was about to take a reference.")
 	r.Assume("gates are only placed where the parked goroutine holds no lock another goroutine of the scenario needs (otherwise synctest.Wait would never see quiescence)")
 	maxPer := ev.Pick(250, 20000)
 	exhaustive := true
@@ -400,6 +400,9 @@ func TestC08(t *testing.T) {
 	}
 	r.Exhaustive(exhaustive)
 	stressC08(t, r)
+	if onlyShape == "" {
+		rawPassesC08(r)
+	}
 	r.Finish(t)
 }
 
